@@ -50,7 +50,7 @@ def run(ctx):
     wfile = os.path.join(ctx.tmp, "witnesses.json")
     nwit = 0
     if proofs["ok"]:
-        rc, out = vf.coq_eval_term(ctx, ["From ZV Require Import Lib.Base Model.Format Model.FormatRobust."], "witnesses")
+        rc, out = vf.coq_eval_term(ctx, ["From ZV Require Import Lib.Base Model.Format Model.FormatRobust."], "witnesses2")
         m = re.search(r"r = \[(.*)\] : list \(list N\)", out)
         if rc == 0 and m:
             ws = []
@@ -60,7 +60,7 @@ def run(ctx):
             json.dump(ws, open(wfile, "w"))
         else:
             broken.append("could not evaluate the model's witness files: " + out[-600:])
-    n = ctx.n(150, 4000)
+    n = ctx.n(110, 4000)
     hr = vf.go_harness(ctx, "search", "TestVerifC11$", ["search/zz_verif_c11_test.go"], n,
                        env={"VERIF_C11_WITNESSES": wfile}, timeout=900 if ctx.tier == "quick" else 5400)
     recs = hr["records"]
@@ -77,7 +77,7 @@ def run(ctx):
     if bases and outcomes and proofs.get("ok"):
         outcomes.sort(key=lambda r: r["id"])
         wi = 0
-        step = max(1, len([o for o in outcomes if o["base"] >= 0]) // ctx.n(70, 1500))
+        step = max(1, len([o for o in outcomes if o["base"] >= 0]) // ctx.n(50, 1500))
         k = 0
         for o in outcomes:
             obs = OBS.get(o["class"])
